@@ -145,11 +145,13 @@ func (p *Parser) ParseWithRecovery(tokens []token.Token) ([]ast.Statement, []err
 
 // ParseWithRecoveryFromModelTokens parses tokenizer output with error recovery.
 func (p *Parser) ParseWithRecoveryFromModelTokens(tokens []models.TokenWithSpan) ([]ast.Statement, []error) {
-	converted, err := convertModelTokens(tokens)
+	converted, err := convertModelTokensWithPositions(tokens)
 	if err != nil {
 		return nil, []error{fmt.Errorf("token conversion failed: %w", err)}
 	}
-	return p.parseWithRecovery(converted)
+	// Keep the source positions so that recovered errors carry line and column
+	p.positions = converted.PositionMapping
+	return p.parseWithRecovery(converted.Tokens)
 }
 
 // parseWithRecovery is the internal implementation shared by both public APIs.
